@@ -361,7 +361,7 @@ pub fn run(ctx: &Ctx) {
     ctx.generated(
         "random-tails",
         "round",
-        t.pick(200_000, 10_000_000),
+        t.pick(800_000, 10_000_000),
         "1..max digits; tails: tie 50..0, near-tie 49..9x / 50..01, all nines, dense nines, sparse; targets at the tail cut, at / left of the leading digit (by 1..7, 8..8000, 2^8..2^48, 10^6..), extension (0..6, 7..700, 19..21, 589..591, 1179/1180), anywhere; zeros; both signs; 7 modes",
         move || round_strategy(max_len),
         check_round,
